@@ -11,7 +11,7 @@ for nb, nc, span, tiers in ((2, 1, 3, ("quick", "thorough")), (4, 3, 5, ("thorou
     OBLIGATIONS.append(dict(name="C17.a Range: %d bridges, %d claims over %d blocks: same first block, exactly the events of the kept blocks in order, other fields copied" % (nb, nc, span + 1),
                             harness=T + "ZZVerif_C17_Range", params={"NB": nb, "NC": nc, "SPAN": span}, tiers=tiers, reach=["end"],
                             bounds="block numbers of the events arbitrary (ordered) in the range, any first block < 2^40, any cut point"))
-for nb, nc, span, tiers in ((2, 1, 2, ("quick", "thorough")), (3, 2, 4, ("thorough",)), (4, 3, 7, ("thorough",))):
+for nb, nc, span, tiers in ((2, 1, 2, ("quick", "thorough")), (3, 1, 3, ("thorough",)), (2, 2, 3, ("thorough",))):
     OBLIGATIONS.append(dict(name="C17.b limitCertSize: %d bridges, %d claims over %d blocks: fits or single block; maximal; first block kept; events = kept blocks" % (nb, nc, span + 1),
                             harness=F + "ZZVerif_C17_LimitCertSize", params={"NB": nb, "NC": nc, "SPAN": span}, tiers=tiers, reach=["cut"], time_limit_s=3000,
                             bounds="all size limits (uint32), both certificate types, event block numbers arbitrary (ordered), metadata lengths 1000*(i+1) / 700*(i+1) bytes"))
